@@ -1,0 +1,61 @@
+// Copyright (C) 2026 Storj Labs, Inc.
+// See LICENSE for copying information.
+
+//go:build verif
+
+package drpchttp
+
+// Machine-checked contracts for this package (read by /verif/govc; comment-only).
+
+// unhex: hex digit v (0-9a-fA-F) with weight m added to c (byte arithmetic), ok iff v is a hex digit.
+//@ spec hexVal(v byte) int = ite(48 <= v && v <= 57, v - 48, ite(97 <= v && v <= 102, v - 87, ite(65 <= v && v <= 70, v - 55, -1)))
+//@ func unhex
+//@   props C14 C13
+//@   ensures [ok]  ok == (hexVal(v) >= 0)
+//@   ensures [val] ok ==> d == byte(int(c) + hexVal(v) * int(m))
+//@   ensures [bad] !ok ==> d == 0
+
+// unescape never panics; a string without '%' is returned unchanged; a '%' not followed by two hex
+// digits is an error.
+//@ func unescape
+//@   props C14 C13
+//@   loop 1 invariant [s] s == s0 && 0 <= i
+//@   ensures [identity] (forall k int :: 0 <= k && k < len(s) ==> s[k] != '%') ==> result1 == nil && result0 == s
+
+//@ func buildContext
+//@   props C14 C13
+//@   requires ctx != nil
+//@   modifies *
+//@   loop 1 invariant [e] entries == entries0 && ctx != nil && -1 <= rangeindex && rangeindex < len(entries)
+
+//@ func Context
+//@   props C13
+//@   requires req != nil
+//@   modifies *
+
+//@ func readExactly
+//@   props C13 C14
+//@   requires r != nil && n <= 4194304
+//@   ensures [len] len(result0) == int(n)
+
+// grpc-web framing on the request side: 1 flag byte, 4 bytes big-endian length, then that many
+// bytes; a declared length above the limit is rejected before anything is allocated for it.
+//@ func grpcRead
+//@   props C13 C14
+//@   requires r != nil
+//@   ensures [limit] result1 == nil ==> len(result0) <= 4194304
+
+// twirp body: read to the end; a body over the limit is rejected, never truncated.
+//@ func twirpRead
+//@   props C13 C14
+//@   requires r != nil
+//@   ensures [C14.reject-oversize] bodyLen(r) > 4194304 ==> result1 != nil
+//@   ensures [C14.never-truncated] result1 == nil ==> len(result0) == bodyLen(r)
+
+// getCode walks the Cause/Unwrap chain with reflection; it must not panic for any error value,
+// including chains whose Cause()/Unwrap() returns nil.
+//@ func getCode
+//@   props C13 C14
+//@   requires err != nil
+//@   modifies *
+//@   loop 1 invariant [i] 0 <= i && i <= 100
